@@ -22,7 +22,7 @@ META = {
         "(quad4, quad8, quad9, tri3, tri6, tet4, hex8), degree <= 1 on arbitrary (offset) cells; plane-strain padding; axisymmetric hoop term u_r / R",
         "template pairing: default quadrature integrates products of shape-function gradients exactly on an affine cell (quad4, quad8, tri3, tri6, tet4; hex8 thorough)",
     ],
-    "outside": ["float32 copies", "multi-cell symbolic geometry", "Lagrange order > 2 on symbolic geometry", "MINI / constant templates for the pairing clause (enriched / no gradient)", "IEEE rounding"],
+    "outside": ["float32 copies", "multi-cell symbolic geometry", "gradient reproduction / pairing on SYMBOLIC quad8 geometry and pairing on symbolic hex8 geometry (tried: undecided after 7 - 40 min; these families are covered on concrete distorted cells)", "Lagrange order > 2 on symbolic geometry", "MINI / constant templates for the pairing clause (enriched / no gradient)", "IEEE rounding"],
     "assumptions": ["valid cells for the volume and reproduction clauses"],
 }
 
@@ -179,7 +179,7 @@ def case_volume(ctx, kind):
         P2 = np.array([[co * p[0] - si * p[1] + c[0], si * p[0] + co * p[1] + c[1]] for p in P], dtype=object if ctx.sym else float)
         with ctx.assume_forks(False):
             region2 = R(fem.Mesh(P2, mesh.cells, mesh.cell_type))
-        ctx.equal("dV_invariant_under_rigid_motion", np.asarray(region2.dV), dV)
+        ctx.equal("dV_invariant_under_rigid_motion", np.asarray(region2.dV), dV, **({} if kind in ("tri3", "quad4") else {"tol": 1e-9}))
 
 
 def case_warning(ctx, kind):
@@ -340,11 +340,12 @@ def cases(tier):
         out.append(("warning", case_warning, {"kind": k, "max_paths": 8}))
     for k in ("tri3", "quad4", "tri6", "quad8", "tet4") + (("quad9", "hex8", "tet10") if thorough else ()):
         out.append(("reproduction", case_reproduction, {"kind": k, "geometry": "affine", "max_paths": 8}))
-    for k in ("tri3", "quad4") + (("quad8", "tet4", "hex8") if thorough else ()):
+    # symbolic-geometry quad8 (reproduction, pairing) and hex8 pairing were tried and stay undecided after 7 - 40 min (Q-tol / Q-raw): not claimed
+    for k in ("tri3", "quad4") + (("tet4", "hex8") if thorough else ()):
         out.append(("reproduction", case_reproduction, {"kind": k, "geometry": "offset", "max_paths": 8}))
     out.append(("reproduction", case_reproduction, {"kind": "quad4", "geometry": "offset", "fieldkind": "PlaneStrain", "max_paths": 8}))
     out.append(("reproduction", case_reproduction, {"kind": "quad4", "geometry": "offset", "fieldkind": "Axisymmetric", "max_paths": 8}))
-    for k in ("tri3", "quad4", "tri6", "tet4") + (("quad8", "hex8") if thorough else ()):
+    for k in ("tri3", "quad4", "tri6", "tet4"):
         out.append(("pairing", case_pairing, {"kind": k, "max_paths": 8}))
     for k in ("quad8", "quad9", "tet10", "hex8", "hex20") + (("hex27",) if thorough else ()):
         out.append(("pairing", case_pairing, {"kind": k, "concrete": True, "max_paths": 8}))
